@@ -509,6 +509,7 @@ def build_world(workdir, seed, n_genes=24, taxonomy='d2_bal', n_cells_per_leaf=6
             taxonomy_tree=TaxonomyTree(data=tree), output_path=precomputed_path,
             rows_at_a_time=max(2, len(row_leaf) // 3), normalization='raw', tmp_dir=str(tmp),
             n_processors=n_processors)
+        world.precompute_kwargs = dict(rows_at_a_time=max(2, len(row_leaf) // 3), n_processors=n_processors)
         world.precomputed_path = precomputed_path
         world.stage_log.append('precompute ok')
 
@@ -633,7 +634,8 @@ def reduced_world(world, drop_level=None, flatten=False, union_markers=None):
         precompute_summary_stats_from_h5ad(
             data_path=world.reference_path, column_hierarchy=None,
             taxonomy_tree=TaxonomyTree(data=tree), output_path=new.precomputed_path,
-            rows_at_a_time=7, normalization='raw', tmp_dir=str(wdir / 'tmp'), n_processors=1)
+            normalization='raw', tmp_dir=str(wdir / 'tmp'),
+            **world.get('precompute_kwargs', dict(rows_at_a_time=7, n_processors=1)))
     if flatten:
         union = set()
         for k, v in world.marker_lookup.items():
